@@ -25,6 +25,7 @@ type stoken struct {
 	s    string
 	pos  int
 	line int
+	esc  bool // written $name: a Go identifier that happens to be a spec keyword (e.g. a local called "exists")
 }
 
 var clauseKeywords = map[string]bool{
@@ -61,12 +62,21 @@ func lex(src string, file string) ([]stoken, error) {
 			}
 			continue
 		}
+		if c == '$' && i+1 < len(src) && (unicode.IsLetter(rune(src[i+1])) || src[i+1] == '_') {
+			j := i + 1
+			for j < len(src) && (unicode.IsLetter(rune(src[j])) || unicode.IsDigit(rune(src[j])) || src[j] == '_') {
+				j++
+			}
+			toks = append(toks, stoken{tIdent, src[i+1 : j], i, line, true})
+			i = j
+			continue
+		}
 		if unicode.IsLetter(rune(c)) || c == '_' {
 			j := i
 			for j < len(src) && (unicode.IsLetter(rune(src[j])) || unicode.IsDigit(rune(src[j])) || src[j] == '_') {
 				j++
 			}
-			toks = append(toks, stoken{tIdent, src[i:j], i, line})
+			toks = append(toks, stoken{tIdent, src[i:j], i, line, false})
 			i = j
 			continue
 		}
@@ -75,7 +85,7 @@ func lex(src string, file string) ([]stoken, error) {
 			for j < len(src) && (unicode.IsDigit(rune(src[j]))) {
 				j++
 			}
-			toks = append(toks, stoken{tNum, src[i:j], i, line})
+			toks = append(toks, stoken{tNum, src[i:j], i, line, false})
 			i = j
 			continue
 		}
@@ -90,7 +100,7 @@ func lex(src string, file string) ([]stoken, error) {
 			if j >= len(src) {
 				return nil, fmt.Errorf("%s:%d: unterminated string", file, line)
 			}
-			toks = append(toks, stoken{tStr, src[i+1 : j], i, line})
+			toks = append(toks, stoken{tStr, src[i+1 : j], i, line, false})
 			i = j + 1
 			continue
 		}
@@ -105,21 +115,21 @@ func lex(src string, file string) ([]stoken, error) {
 		}
 		switch {
 		case three == "==>" || three == "<==":
-			toks = append(toks, stoken{tOp, three, i, line})
+			toks = append(toks, stoken{tOp, three, i, line, false})
 			i += 3
 		case two == "==" || two == "!=" || two == "<=" || two == ">=" || two == "&&" || two == "||" || two == "::" || two == ".." || two == "=>" || two == ":=":
-			toks = append(toks, stoken{tOp, two, i, line})
+			toks = append(toks, stoken{tOp, two, i, line, false})
 			i += 2
 		default:
 			if strings.ContainsRune("+-*/%<>!()[]{}.,:;=@|&", rune(c)) {
-				toks = append(toks, stoken{tOp, string(c), i, line})
+				toks = append(toks, stoken{tOp, string(c), i, line, false})
 				i++
 			} else {
 				return nil, fmt.Errorf("%s:%d: unexpected character %q", file, line, c)
 			}
 		}
 	}
-	toks = append(toks, stoken{tEOF, "", len(src), line})
+	toks = append(toks, stoken{tEOF, "", len(src), line, false})
 	return toks, nil
 }
 
@@ -333,7 +343,7 @@ func (p *parser) isOp(s string) bool {
 }
 func (p *parser) isKw(s string) bool {
 	t := p.peek()
-	return t.kind == tIdent && t.s == s
+	return t.kind == tIdent && t.s == s && !t.esc
 }
 func (p *parser) errf(format string, a ...interface{}) error {
 	return fmt.Errorf("%s:%d: %s", p.file, p.peek().line, fmt.Sprintf(format, a...))
@@ -1242,6 +1252,10 @@ func (p *parser) primary() (Expr, error) {
 		}
 		return nil, p.errf("unexpected %q in expression", t.s)
 	case tIdent:
+		if t.esc {
+			p.next()
+			return &EIdent{Name: t.s}, nil
+		}
 		if clauseKeywords[t.s] {
 			return nil, p.errf("unexpected keyword %q in expression", t.s)
 		}
